@@ -118,10 +118,24 @@ def _b64_cores(s: bytes):
     return out
 
 
+WINDOW, STRIDE = 10, 4
+
+
 def needles(secret: bytes):
     n = [("raw", secret), ("hex", secret.hex().encode()), ("HEX", secret.hex().upper().encode())]
     n += _b64_cores(secret)
     n.append(("decimal", str(int.from_bytes(secret, "big")).encode()))
+    # partial leaks: a truncated encoding (e.g. a kid cut out of the text of "d") and raw windows
+    if len(secret) > WINDOW:
+        for name, enc in (("b64-prefix", base64.b64encode), ("b64url-prefix", base64.urlsafe_b64encode)):
+            n.append((name, enc(secret)[:12]))
+        n.append(("hex-prefix", secret.hex().encode()[:20]))
+        seen = set()
+        for i in list(range(0, len(secret) - WINDOW, STRIDE)) + [len(secret) - WINDOW]:
+            w = secret[i:i + WINDOW]
+            if len(set(w)) >= 5 and w not in seen:      # skip degenerate windows (runs of zero octets)
+                seen.add(w)
+                n.append(("raw-window@%d" % i, w))
     return n
 
 
@@ -190,10 +204,11 @@ def haystacks(out, depth=0):
 def scan(out, secrets):
     """-> [(label, form)] for every secret found in (any view of) out"""
     found = []
-    hs = haystacks(out)
+    hs = list(dict.fromkeys(haystacks(out)))
+    big = b"\x00|\x00".join(hs)          # one search per needle (the separator cannot complete a needle of >= 10 octets by accident: checked below)
     for s in secrets:
         for form, nd in s.needles:
-            if any(nd in h for h in hs):
+            if nd in big and any(nd in h for h in hs):
                 found.append((s.label, form))
                 break
     return found
@@ -520,6 +535,8 @@ def export_ops(e):
         ops["as_pem(private=False)"] = lambda k: k.as_pem(private=False)
         ops["as_der(private=False)"] = lambda k: k.as_der(private=False)
         ops["as_bytes('PEM', private=False)"] = lambda k: k.as_bytes("PEM", False)
+        ops["as_pem(private=False, password)"] = lambda k: k.as_pem(private=False, password="pw")
+        ops["as_der(private=False, password)"] = lambda k: k.as_der(private=False, password=b"pw")
         if e.public_only:
             ops["as_pem()"] = lambda k: k.as_pem()
             ops["as_der()"] = lambda k: k.as_der()
@@ -691,8 +708,8 @@ def run(ctx):
                     ctx.violation({"kind": "private-member-in-epk", "kty": e.kty, "op": name.split("[")[0]},
                                   "%s with key %s wrote epk %r" % (name, e.name, epk), {"recipe": e.recipe, "op": name})
             # a PEM/DER public export is exactly the native public encoding (no room for anything else)
-            if e.native is not None and e.kty != "oct" and name in ("as_pem(private=False)", "as_der(private=False)", "as_pem()", "as_der()"):
-                want = native_bytes(e.native, False, "der" in name)
+            if e.native is not None and e.kty != "oct" and name.startswith(("as_pem(", "as_der(", "as_bytes(")):
+                want = native_bytes(e.native, False, "der" in name.lower())
                 if out != want:
                     ctx.violation({"kind": "public-bytes-differ", "kty": e.kty, "op": name},
                                   "%s of key %s is not the SubjectPublicKeyInfo of the native public key: %s" % (name, e.name, short(out)),
@@ -781,24 +798,32 @@ def run(ctx):
         dist["ensure_kid_cases"] += 1
         # as_bytes dispatch
         if e.kty != "oct":
+            with_pw = (None, "pw") if (not ctx.quick or rng.random() < 0.2) else (None,)   # encrypting PKCS8 is slow
             for enc in (None, "PEM", "DER", "JWK"):
                 for pv in [True, False, None] + ([0, 1] if enc in (None, "DER") else []):
-                    kk = key
-                    r = call(lambda: kk.as_bytes(enc, pv) if enc is not None else kk.as_bytes(private=pv))
-                    if r[0] == "ok":
-                        o = r[1]
-                        if o.startswith(b"-----BEGIN"):
-                            xk = "XPrivate" if b"PRIVATE KEY-----" in o else ("XPublic" if b"PUBLIC KEY-----" in o else None)
+                    for pw in with_pw:
+                        kk = key
+                        kw = {"private": pv}
+                        if enc is not None:
+                            kw["encoding"] = enc
+                        if pw is not None:
+                            kw["password"] = pw
+                        r = call(lambda: kk.as_bytes(**kw))
+                        if r[0] == "ok":
+                            o = r[1]
+                            pwb = pw.encode() if pw else None
+                            if o.startswith(b"-----BEGIN"):
+                                xk = "XPrivate" if b"PRIVATE KEY-----" in o else ("XPublic" if b"PUBLIC KEY-----" in o else None)
+                            else:
+                                xk = "XPrivate" if call(S.load_der_private_key, o, pwb)[0] == "ok" else (
+                                    "XPublic" if call(S.load_der_public_key, o)[0] == "ok" else None)
+                            exp_term = "(Ok %s)" % xk if xk else "(Err ERuntime)"
                         else:
-                            xk = "XPrivate" if call(S.load_der_private_key, o, None)[0] == "ok" else (
-                                "XPublic" if call(S.load_der_public_key, o)[0] == "ok" else None)
-                        exp_term = "(Ok %s)" % xk if xk else "(Err ERuntime)"
-                    else:
-                        exp_term = "(Err %s)" % c_exn(exn_class(r[1]))
-                    add("CAsBytes %s %s %s %s" % (c_bool(rawpriv), {None: "EncDefault", "PEM": "EncPEM", "DER": "EncDER", "JWK": "EncOther"}[enc],
-                                                   c_pv(pv), exp_term), ("as_bytes", e.name, enc, pv))
-                    ctx.note_case(("as_bytes", e.name, enc, repr(pv)))
-                    dist["as_bytes_cases"] += 1
+                            exp_term = "(Err %s)" % c_exn(exn_class(r[1]))
+                        add("CAsBytes %s %s %s %s %s" % (c_bool(rawpriv), {None: "EncDefault", "PEM": "EncPEM", "DER": "EncDER", "JWK": "EncOther"}[enc],
+                                                          c_pv(pv), c_bool(pw is not None), exp_term), ("as_bytes", e.name, enc, pv, pw))
+                        ctx.note_case(("as_bytes", e.name, enc, repr(pv), pw))
+                        dist["as_bytes_cases"] += 1
 
     # key sets: random mixes of all kinds, fresh objects, with and without kid
     n_sets = ctx.scale(60, 1500)
@@ -948,6 +973,28 @@ def replay(path):
     ops = dict(all_ops(e))
     ops.update(must_raise_ops(e))
     name = r["op"]
+    if name == "prepare_ephemeral_key":
+        from joserfc import jwe
+        from joserfc.rfc7516.models import Recipient, CompactEncryption
+        alg = jwe.JWERegistry.algorithms["alg"][r.get("alg", "ECDH-ES")]
+        parent = CompactEncryption({"alg": alg.name, "enc": "A128GCM"}, PAYLOAD)
+        rcp = Recipient(parent, None, key)
+        secrets = list(e.secrets)
+        if r.get("ephemeral_recipe"):
+            rcp.ephemeral_key = make_key(r["ephemeral_recipe"])
+            if rcp.ephemeral_key.key_type != "oct" and rcp.ephemeral_key.private_key is not None:
+                secrets += native_secrets(rcp.ephemeral_key.key_type, rcp.ephemeral_key.private_key)
+        with capture_generated() as made:
+            res = call(alg.prepare_ephemeral_key, rcp)
+        secrets += ephemeral_secrets(made)
+        print("result:", res[0], short(parent.protected, 400))
+        if res[0] == "err":
+            return 1
+        epk = parent.protected.get("epk")
+        found = scan(parent.protected, secrets)
+        names = [m for m in SPEC_PRIVATE[rcp.ephemeral_key.key_type] if isinstance(epk, dict) and m in epk]
+        print("private values found:", found, "private members in epk:", names)
+        return 1 if (found or names) else 0
     if name not in ops:
         print("operation %r cannot be replayed standalone" % name)
         return 1
@@ -957,7 +1004,20 @@ def replay(path):
         return 1 if res[0] == "ok" else 0
     if res[0] == "err":
         return 1
-    found = scan(res[1], secrets)
-    names = [m for m in SPEC_PRIVATE[e.kty] if isinstance(res[1], dict) and m in res[1] and m not in CALLER_PARAMS]
+    out = res[1]
+    found = scan(out, secrets)
+    dicts = [out] if isinstance(out, dict) and "keys" not in out else (out.get("keys", []) if isinstance(out, dict) else [])
+    names = [m for d in dicts if isinstance(d, dict) for m in SPEC_PRIVATE[e.kty] if m in d and m not in CALLER_PARAMS]
     print("private values found:", found, "private members:", names)
-    return 1 if (found or names) else 0
+    bad = bool(found or names)
+    if e.native is not None and e.kty != "oct" and name.startswith(("as_pem(", "as_der(", "as_bytes(")):
+        same = out == native_bytes(e.native, False, "der" in name.lower())
+        print("equals the SubjectPublicKeyInfo of the native public key:", same)
+        bad = bad or not same
+    if name == "thumbprint()":
+        with thumb_hook() as shim:
+            key.thumbprint()
+        fields = [m for c in shim.calls for m, _ in c]
+        print("thumbprint digests members:", fields)
+        bad = bad or (e.kty != "oct" and any(m in SPEC_PRIVATE[e.kty] for m in fields))
+    return 1 if bad else 0
